@@ -31,6 +31,10 @@ type oaParam struct {
 	Name     string `json:"name"`
 	In       string `json:"in"`
 	Required bool   `json:"required"`
+	Schema   struct {
+		Type   string `json:"type"`
+		Format string `json:"format"`
+	} `json:"schema"`
 }
 
 type oaOperation struct {
